@@ -46,7 +46,8 @@ ENVS = ['equation', 'align', 'align*', 'eqnarray', 'gather', '[', '$$', 'display
 part = st.tuples(st.sampled_from(LEAD), st.one_of(st.none(), st.sampled_from(OPS)),
                  st.lists(st.tuples(st.sampled_from(ELEM), st.one_of(st.just(''), st.sampled_from(OPS))), min_size=0, max_size=3),
                  st.sampled_from(['', '', '.', ',', ';', ':']), st.sampled_from(TRAIL))
-text = st.tuples(st.just('T'), st.sampled_from(['\\text', '\\mbox', '\\text']), st.sampled_from(['%s', '%s %s', ' %s ', '%s ', ' %s', '%s.', ' %s, ']))
+text = st.tuples(st.just('T'), st.sampled_from(['\\text', '\\mbox', '\\text']), st.sampled_from(['%s', '%s %s', ' %s ', '%s ', ' %s', '%s.', ' %s, ']),
+                 st.sampled_from(['', '', '', '\\textcolor{red}{', '\\zzone{', '\\colorbox{red}{']))
 section = st.lists(st.one_of(part, part, text), min_size=1, max_size=3)
 row = st.lists(section, min_size=1, max_size=3)
 equation = st.tuples(st.sampled_from(ENVS), st.lists(row, min_size=1, max_size=3),
@@ -85,11 +86,12 @@ def render_eq(r, eq):
                 if p[0] == 'T':
                     fmt = p[2]
                     ws = [r.word() for _ in range(fmt.count('%s'))]
-                    body += p[1] + '{'
+                    wrap = p[3] if len(p) > 3 else ''
+                    body += wrap + p[1] + '{'
                     base = None
                     txt = fmt % tuple(ws)
                     ps.append(('T', ws, txt, len(body)))
-                    body += txt + '}'
+                    body += txt + '}' + ('}' if wrap else '')
                 else:
                     lead, op, els, punct, trail = p
                     if not els:
@@ -197,8 +199,8 @@ def check(doc):
     lang, seqs, eqs = doc
     r = R()
     items = []
-    r.src += r.word('W') + '\n'
-    first = r.src.strip()
+    r.src += '\\newcommand{\\zzone}[1]{#1}\n' + r.word('W') + '\n'
+    first = r.src.strip().split('\n')[-1]
     marks = [first]
     for e in eqs:
         st_, lo, hi = render_eq(r, e)
